@@ -1,1 +1,2 @@
+pub mod amf0;
 pub mod chunk;
